@@ -132,8 +132,24 @@ func (g *gateReader) Read(p []byte) (int, error) {
 	if g.off > 0 {
 		g.once.Do(func() { close(g.entered); <-g.gate })
 	}
-	n := copy(p[:min(len(p), 4096)], g.data[g.off:])
+	n := copy(p[:min(len(p), 1000)], g.data[g.off:]) // (short reads: a stream hands out what it has)
 	g.off += n
+	return n, nil
+}
+
+// chunkReader is a stream that returns at most chunk bytes per Read (a network stream, a pipe)
+type chunkReader struct {
+	data  []byte
+	off   int
+	chunk int
+}
+
+func (c *chunkReader) Read(p []byte) (int, error) {
+	if c.off >= len(c.data) {
+		return 0, io.EOF
+	}
+	n := copy(p[:min(len(p), c.chunk)], c.data[c.off:])
+	c.off += n
 	return n, nil
 }
 
@@ -246,8 +262,10 @@ func runDbLife(dir string, idx int, steps []dlStep, add func(step int, kind, wha
 				}
 			} else if (si+idx)%2 == 0 {
 				env.Db.RestoreSnapshot(snaps[s].data)
-			} else {
+			} else if (si+idx)%4 == 1 {
 				env.Db.RestoreFromReader(bytes.NewReader(snaps[s].data))
+			} else {
+				env.Db.RestoreFromReader(&chunkReader{data: snaps[s].data, chunk: 7 + 300*((si+idx)%5)})
 			}
 			if d := project.DiffLines(snaps[s].lines, contentLines(env)); len(d) > 0 {
 				add(si, "restore-content", fmt.Sprintf("content after restore differs from the content at snapshot time: %s", strings.Join(d[:min(4, len(d))], "; ")))
